@@ -115,6 +115,8 @@ func runC10(c *Ctx, r *Report) {
 	c10TableCopy(c, r, "C10-e/table-copy")
 	// (g) both equivalences also hold with several workers: shared compiled stages keep no state
 	c05StagePurity(c, r, "C10-g")
+	// (a) what a stage remembers from the probe's dummy evaluation survives into the run
+	stageKeepsNoAtomicState(c, r, "C10-a/probe-state", nil, false)
 }
 
 // ---------------------------------------------------------------- (a)
